@@ -1103,3 +1103,427 @@ async fn signed_payment_cannot_be_replayed_against_another_output_of_the_payer()
         first.tx_ordinal, second.tx_ordinal, pool_accepted, result, second_still_unspent, bob_balance, amount
     )); }
 }
+
+/// C06: a signed full block does not stay valid when one of its transactions is replaced, after signing, by an empty
+/// placeholder carrying that transaction's hash (the placeholder supplies its own merkle leaf) — scenario of an independent audit
+#[tokio::test]
+#[serial_test::serial]
+async fn transaction_of_a_signed_block_cannot_be_swapped_for_a_placeholder() {
+    #[allow(unused_imports)] use std::ops::Deref;
+    #[allow(unused_imports)] use crate::core::util::crypto::generate_keys;
+    #[allow(unused_imports)] use ahash::AHashMap;
+    use crate::core::consensus::block::BlockType;
+    use crate::core::util::configuration::Configuration;
+    use crate::core::consensus::transaction::{Transaction, TransactionType};
+
+    let mut t = TestManager::default();
+    t.initialize(100, 200_000_000_000_000).await;
+
+    let (block1_hash, ts) = {
+        let blockchain = t.blockchain_lock.read().await;
+        let block1 = blockchain.get_latest_block().unwrap();
+        (block1.hash, block1.timestamp)
+    };
+
+    // the honest block 2 : three zero-fee payments (1000, 2000 and 3000 nolan), created and signed by the
+    // node's key. it is NOT added to the chain : the node under test only ever sees edited copies of it.
+    let block2 = {
+        let configs = t.config_lock.read().await;
+        let (public_key, private_key) = {
+            let wallet = t.wallet_lock.read().await;
+            (wallet.public_key, wallet.private_key)
+        };
+        let mut transactions: ahash::AHashMap<crate::core::defs::SaitoSignature, Transaction> =
+            Default::default();
+        for amount in [1000u64, 2000, 3000] {
+            let mut wallet = t.wallet_lock.write().await;
+            let mut tx = Transaction::create(
+                &mut wallet,
+                public_key,
+                amount,
+                0,
+                false,
+                None,
+                1,
+                configs.get_consensus_config().unwrap().genesis_period,
+            )
+            .unwrap();
+            tx.sign(&private_key);
+            tx.generate(&public_key, 0, 0);
+            transactions.insert(tx.signature, tx);
+        }
+        let blockchain = t.blockchain_lock.read().await;
+        let mut block = Block::create(
+            &mut transactions,
+            block1_hash,
+            &blockchain,
+            ts + 120000,
+            &public_key,
+            &private_key,
+            None,
+            configs.deref(),
+            &t.storage,
+        )
+        .await
+        .unwrap();
+        block.generate().unwrap();
+        block.sign(&private_key);
+        block
+    };
+    let original_hash = block2.hash;
+    let original_merkle_root = block2.merkle_root;
+    let original_tx_count = block2.transactions.len();
+    assert_eq!(original_tx_count, 3);
+    assert!(block2
+        .transactions
+        .iter()
+        .all(|tx| tx.transaction_type == TransactionType::Normal));
+    assert!(!t.config_lock.read().await.is_spv_mode());
+    assert!(!t.config_lock.read().await.is_browser());
+
+    let wire = block2.serialize_for_net(BlockType::Full);
+
+    // the victim : the last transaction of the block
+    let victim_index = original_tx_count - 1;
+    let victim = block2.transactions[victim_index].clone();
+    let victim_hash = victim.hash_for_signature.unwrap();
+    let victim_output_key = {
+        // the key of the output the victim transaction creates, as a full node files it
+        let mut copy = Block::deserialize_from_net(&wire).unwrap();
+        copy.generate().unwrap();
+        copy.transactions[victim_index].to[0].utxoset_key
+    };
+
+    // control : the same block with the victim transaction simply dropped has the same hash (the hash
+    // is taken over the header) and is rejected, because the merkle root no longer matches
+    {
+        let mut dropped = Block::deserialize_from_net(&wire).unwrap();
+        dropped.transactions.remove(victim_index);
+        let mut dropped =
+            Block::deserialize_from_net(&dropped.serialize_for_net(BlockType::Full)).unwrap();
+        dropped.generate().unwrap();
+        assert_eq!(dropped.hash, original_hash);
+        let result = t.add_block(dropped).await;
+        assert!(
+            matches!(result, AddBlockResult::FailedNotValid),
+            "control : a copy of block 2 with a transaction dropped must be rejected"
+        );
+        let blockchain = t.blockchain_lock.read().await;
+        assert_eq!(blockchain.get_latest_block_hash(), block1_hash);
+        assert!(blockchain.get_block(&original_hash).is_none());
+    }
+
+    // hostile edit by a third party that holds no key : replace the victim transaction by an SPV
+    // placeholder that carries the victim's hash in the first half of its signature field
+    let mut edited = Block::deserialize_from_net(&wire).unwrap();
+    let mut placeholder = Transaction::default();
+    placeholder.transaction_type = TransactionType::SPV;
+    placeholder.txs_replacements = 1;
+    placeholder.timestamp = victim.timestamp;
+    placeholder.signature[0..32].copy_from_slice(&victim_hash);
+    edited.transactions[victim_index] = placeholder;
+    let edited_wire = edited.serialize_for_net(BlockType::Full);
+    assert_ne!(edited_wire, wire);
+
+    // what the receiving node does with the bytes
+    let mut received = Block::deserialize_from_net(&edited_wire).unwrap();
+    received.generate().unwrap();
+    assert_eq!(received.hash, original_hash, "the edit keeps the block hash");
+    assert_eq!(received.merkle_root, original_merkle_root);
+    assert_eq!(received.transactions.len(), original_tx_count);
+    assert_eq!(
+        received.transactions[victim_index].transaction_type,
+        TransactionType::SPV
+    );
+    assert!(received.transactions[victim_index].to.is_empty());
+
+    let result = t.add_block(received).await;
+
+    let (accepted, in_chain_tx_type, victim_output_exists) = {
+        let blockchain = t.blockchain_lock.read().await;
+        let accepted = matches!(result, AddBlockResult::BlockAddedSuccessfully(_, _, _))
+            && blockchain.get_latest_block_hash() == original_hash;
+        let tx_type = blockchain
+            .get_block(&original_hash)
+            .map(|b| b.transactions[victim_index].transaction_type);
+        let exists = blockchain.utxoset.contains_key(&victim_output_key);
+        (accepted, tx_type, exists)
+    };
+
+    if !(!accepted) { witness(format!("full node accepted block 2 (hash {}) as the tip of its chain although its transaction #{} (a signed transaction with outputs worth {} nolan, hash {}) had been replaced after signing by an empty SPV placeholder (stored type {:?}, victim output in utxoset: {}): the merkle root still matched because the placeholder supplies its own leaf hash, so two different transaction lists are accepted under one block hash",
+        original_hash.to_hex(),
+        victim_index,
+        victim.total_out,
+        victim_hash.to_hex(),
+        in_chain_tx_type,
+        victim_output_exists)); }
+}
+
+/// C06: the routing paths of the transactions a signed block carries belong to its content: rewriting one with keys of one's
+/// own must change the block's identity or be refused (known finding: hops are in no commitment) — scenario of an independent audit
+#[tokio::test]
+#[serial_test::serial]
+async fn routing_path_of_a_signed_block_cannot_be_rewritten() {
+    #[allow(unused_imports)] use std::ops::Deref;
+    #[allow(unused_imports)] use crate::core::util::crypto::generate_keys;
+    #[allow(unused_imports)] use ahash::AHashMap;
+    use crate::core::consensus::block::BlockType;
+    use crate::core::consensus::transaction::{Transaction, TransactionType};
+    use crate::core::util::configuration::Configuration;
+
+    let (sender_public, sender_private) = generate_keys(); // A : pays the fee
+    let (router_public, router_private) = generate_keys(); // B : the honest routing node
+    let (mallory_public, mallory_private) = generate_keys(); // M  : third party
+    let (mallory2_public, mallory2_private) = generate_keys(); // M2 : a second key of the third party
+
+    let mut t = TestManager::default();
+    let mut slip = Slip::default();
+    slip.public_key = sender_public;
+    slip.amount = 1_000_000;
+    t.initialize_from_slips_and_value(vec![slip], 200_000_000_000_000)
+        .await;
+
+    let (creator_public, creator_private) = {
+        let wallet = t.wallet_lock.read().await;
+        (wallet.public_key, wallet.private_key)
+    };
+    let (block1_hash, ts, sender_output) = {
+        let blockchain = t.blockchain_lock.read().await;
+        let block1 = blockchain.get_latest_block().unwrap();
+        let output = block1
+            .transactions
+            .iter()
+            .flat_map(|tx| tx.to.iter())
+            .find(|s| s.public_key == sender_public)
+            .unwrap()
+            .clone();
+        (block1.hash, block1.timestamp, output)
+    };
+    assert_eq!(sender_output.amount, 1_000_000);
+    assert!(!t.config_lock.read().await.is_spv_mode());
+
+    // A pays a fee of 1000 nolan; the transaction travels A -> B -> creator
+    let mut tx = Transaction::default();
+    tx.timestamp = ts + 1000;
+    tx.from.push(sender_output.clone());
+    let mut output = Slip::default();
+    output.public_key = sender_public;
+    output.amount = 999_000;
+    tx.to.push(output);
+    tx.sign(&sender_private);
+    tx.add_hop(&sender_private, &sender_public, &router_public);
+    tx.add_hop(&router_private, &router_public, &creator_public);
+    tx.generate(&creator_public, 0, 0);
+    assert_eq!(tx.total_fees, 1000);
+    assert!(tx.validate_routing_path());
+
+    // honest block 2 carrying that transaction; NOT added to the chain of the node under test
+    let block2 = {
+        let configs = t.config_lock.read().await;
+        let mut transactions: ahash::AHashMap<crate::core::defs::SaitoSignature, Transaction> =
+            Default::default();
+        transactions.insert(tx.signature, tx.clone());
+        let blockchain = t.blockchain_lock.read().await;
+        let mut block = Block::create(
+            &mut transactions,
+            block1_hash,
+            &blockchain,
+            ts + 120000,
+            &creator_public,
+            &creator_private,
+            None,
+            configs.deref(),
+            &t.storage,
+        )
+        .await
+        .unwrap();
+        block.generate().unwrap();
+        block.sign(&creator_private);
+        block
+    };
+    let original_hash = block2.hash;
+    let tx_index = block2
+        .transactions
+        .iter()
+        .position(|t| t.transaction_type == TransactionType::Normal)
+        .unwrap();
+    assert_eq!(block2.transactions[tx_index].path.len(), 2);
+    assert_eq!(block2.total_fees, 1000);
+    let original_work = block2.total_work;
+    assert_eq!(original_work, 500);
+    // with the lottery number 0 the first routing node of the path wins : B
+    let original_winner = block2.transactions[tx_index].get_winning_routing_node([0; 32]);
+    assert_eq!(original_winner, router_public);
+
+    let wire = block2.serialize_for_net(BlockType::Full);
+
+    // control : an edit of a part the header does commit to (one byte of the amount of the output)
+    // keeps the block hash and is rejected
+    {
+        let mut tampered = Block::deserialize_from_net(&wire).unwrap();
+        tampered.transactions[tx_index].to[0].amount -= 1;
+        let mut tampered =
+            Block::deserialize_from_net(&tampered.serialize_for_net(BlockType::Full)).unwrap();
+        tampered.generate().unwrap();
+        assert_eq!(tampered.hash, original_hash);
+        let result = t.add_block(tampered).await;
+        assert!(
+            matches!(result, AddBlockResult::FailedNotValid),
+            "control : a copy of block 2 with an output amount changed must be rejected"
+        );
+        let blockchain = t.blockchain_lock.read().await;
+        assert_eq!(blockchain.get_latest_block_hash(), block1_hash);
+    }
+
+    // hostile edit, needs none of the keys of A, B or the creator : the path A -> B -> creator is replaced
+    // by M2 -> M -> creator, each hop signed by the third party's own keys
+    let mut edited = Block::deserialize_from_net(&wire).unwrap();
+    {
+        let tx = &mut edited.transactions[tx_index];
+        tx.path.clear();
+        tx.add_hop(&mallory2_private, &mallory2_public, &mallory_public);
+        tx.add_hop(&mallory_private, &mallory_public, &creator_public);
+    }
+    let edited_wire = edited.serialize_for_net(BlockType::Full);
+    assert_ne!(edited_wire, wire);
+    assert_eq!(edited_wire.len(), wire.len());
+
+    let mut received = Block::deserialize_from_net(&edited_wire).unwrap();
+    received.generate().unwrap();
+    assert_eq!(received.hash, original_hash, "the edit keeps the block hash");
+    assert_eq!(received.total_work, original_work);
+
+    let result = t.add_block(received).await;
+
+    let (accepted, stored_winner) = {
+        let blockchain = t.blockchain_lock.read().await;
+        let accepted = matches!(result, AddBlockResult::BlockAddedSuccessfully(_, _, _))
+            && blockchain.get_latest_block_hash() == original_hash;
+        let winner = blockchain
+            .get_block(&original_hash)
+            .map(|b| b.transactions[tx_index].get_winning_routing_node([0; 32]));
+        (accepted, winner)
+    };
+
+    if !(!accepted) { witness(format!("full node accepted block 2 (hash {}) as its tip although the routing path of its transaction #{} (fee 1000 nolan) had been rewritten after signing from A->B->creator to M2->M->creator by a party holding none of their keys: for lottery number 0 the routing payout of this block now goes to {} (M = {}) instead of the honest router B = {}, so two nodes holding the two variants of the same block hash disagree on the payout",
+        original_hash.to_hex(),
+        tx_index,
+        stored_winner.map(|k| k.to_base58()).unwrap_or_default(),
+        mallory_public.to_base58(),
+        router_public.to_base58())); }
+}
+
+/// C06: which output an input spends belongs to the content a block hash stands for (known finding, shared root cause with the C01
+/// finding: the signed bytes of an input leave out block id and transaction ordinal) — scenario of an independent audit
+#[tokio::test]
+#[serial_test::serial]
+async fn input_of_a_signed_block_cannot_be_repointed() {
+    #[allow(unused_imports)] use std::ops::Deref;
+    #[allow(unused_imports)] use crate::core::util::crypto::generate_keys;
+    #[allow(unused_imports)] use ahash::AHashMap;
+    use crate::core::consensus::block::BlockType;
+    use crate::core::consensus::transaction::TransactionType;
+    use crate::core::util::configuration::Configuration;
+
+    let mut t = TestManager::default();
+    // block 1 : 100 issuance transactions of 200_000_000_000_000 nolan each to the node's own key
+    t.initialize(100, 200_000_000_000_000).await;
+    let (block1_hash, ts) = {
+        let blockchain = t.blockchain_lock.read().await;
+        let block1 = blockchain.get_latest_block().unwrap();
+        (block1.hash, block1.timestamp)
+    };
+    assert!(!t.config_lock.read().await.is_spv_mode());
+
+    // honest block 2 with one payment; NOT added to the chain of the node under test
+    let block2 = t
+        .create_block(block1_hash, ts + 120000, 1, 1000, 0, false)
+        .await;
+    let original_hash = block2.hash;
+    let tx_index = block2
+        .transactions
+        .iter()
+        .position(|tx| tx.transaction_type == TransactionType::Normal)
+        .unwrap();
+    let original_input = block2.transactions[tx_index].from[0].clone();
+    assert_eq!(original_input.block_id, 1);
+    assert_eq!(original_input.amount, 200_000_000_000_000);
+    let original_key = original_input.get_utxoset_key();
+
+    // another unspent output of the same owner and the same amount, from another transaction of block 1
+    let other_ordinal = (0..100u64)
+        .find(|o| {
+            block2
+                .transactions
+                .iter()
+                .flat_map(|tx| tx.from.iter())
+                .all(|s| s.tx_ordinal != *o)
+        })
+        .unwrap();
+    let mut other_input = original_input.clone();
+    other_input.tx_ordinal = other_ordinal;
+    let other_key = other_input.get_utxoset_key();
+    assert_ne!(other_key, original_key);
+    {
+        let blockchain = t.blockchain_lock.read().await;
+        assert_eq!(blockchain.utxoset.get(&original_key), Some(&true));
+        assert_eq!(blockchain.utxoset.get(&other_key), Some(&true));
+    }
+
+    let wire = block2.serialize_for_net(BlockType::Full);
+
+    // control : the same input re-pointed at an output that does not exist keeps the block hash and
+    // is rejected
+    {
+        let mut tampered = Block::deserialize_from_net(&wire).unwrap();
+        tampered.transactions[tx_index].from[0].tx_ordinal = 5000;
+        let mut tampered =
+            Block::deserialize_from_net(&tampered.serialize_for_net(BlockType::Full)).unwrap();
+        tampered.generate().unwrap();
+        assert_eq!(tampered.hash, original_hash);
+        let result = t.add_block(tampered).await;
+        assert!(
+            matches!(result, AddBlockResult::FailedNotValid),
+            "control : a copy of block 2 spending a non-existent output must be rejected"
+        );
+        let blockchain = t.blockchain_lock.read().await;
+        assert_eq!(blockchain.get_latest_block_hash(), block1_hash);
+        assert_eq!(blockchain.utxoset.get(&original_key), Some(&true));
+    }
+
+    // hostile edit by a third party that holds no key : 8 bytes of the input (its transaction ordinal)
+    let mut edited = Block::deserialize_from_net(&wire).unwrap();
+    edited.transactions[tx_index].from[0].tx_ordinal = other_ordinal;
+    let edited_wire = edited.serialize_for_net(BlockType::Full);
+    assert_ne!(edited_wire, wire);
+
+    let mut received = Block::deserialize_from_net(&edited_wire).unwrap();
+    received.generate().unwrap();
+    assert_eq!(received.hash, original_hash, "the edit keeps the block hash");
+    assert_eq!(
+        received.transactions[tx_index].hash_for_signature,
+        block2.transactions[tx_index].hash_for_signature,
+        "the edit keeps the merkle leaf"
+    );
+
+    let result = t.add_block(received).await;
+
+    let (accepted, original_spendable, other_spendable) = {
+        let blockchain = t.blockchain_lock.read().await;
+        let accepted = matches!(result, AddBlockResult::BlockAddedSuccessfully(_, _, _))
+            && blockchain.get_latest_block_hash() == original_hash;
+        (
+            accepted,
+            blockchain.utxoset.get(&original_key).copied(),
+            blockchain.utxoset.get(&other_key).copied(),
+        )
+    };
+
+    if !(!accepted) { witness(format!("full node accepted block 2 (hash {}) as its tip although input 0 of its transaction #{} had been re-pointed after signing from output (block 1, tx {}, slip 0) to output (block 1, tx {}, slip 0): on this node the output the signed block spends is still spendable ({:?}) and the other one is gone from the UTXO set ({:?}), so two nodes holding the two variants of the same block hash have different UTXO sets",
+        original_hash.to_hex(),
+        tx_index,
+        original_input.tx_ordinal,
+        other_ordinal,
+        original_spendable,
+        other_spendable)); }
+}
